@@ -194,6 +194,8 @@ class FromArrayOp:
                     spec["grid"] = [rng.randint(1, max(1, s)) for s in shape]
                 if rng.random() < ctx.p_untokenizable:
                     spec["tokenizable"] = False
+                if rng.random() < ctx.p_simlock:
+                    spec["lock"] = "L0"
             elif rng.random() < ctx.p_masked:
                 spec["masked"] = True
             ctx.recipe["sources"][name] = spec
@@ -209,6 +211,12 @@ class FromArrayOp:
                 args["inline_array"] = True
             if rng.random() < 0.2:
                 args["fancy"] = False
+            if spec.get("lock"):
+                args["lock"] = spec["lock"]
+            elif rng.random() < 0.1:
+                args["lock"] = True
+            if rng.random() < ctx.p_custom_getitem:
+                args["getitem"] = "rec"
         elif rng.random() < 0.1:
             args["lock"] = True
         return args
@@ -223,6 +231,8 @@ class FromArrayOp:
                 kw[k] = a[k]
         if isinstance(kw.get("lock"), str):
             kw["lock"] = env.lock(kw["lock"])
+        if a.get("getitem") == "rec":
+            kw["getitem"] = fakes.rec_getter
         return da.from_array(s["obj"], chunks=from_json_chunks(a["chunks"]), **kw)
 
 
@@ -377,7 +387,7 @@ class UnaryOp:
 
     @staticmethod
     def gen(rng, ctx, ins):
-        f = rng.choice(UnaryOp.FNS)
+        f = rng.choice(ctx.unary_fns or UnaryOp.FNS)
         a = {"f": f}
         if f in ("addc", "mulc"):
             a["c"] = rng.choice([1, 2, -1, 3, 0.5])
@@ -573,6 +583,10 @@ class GetitemOp:
                 fancy_used = True
             else:
                 ix.append([None, None, None])
+        if fancy_used:
+            # int + slice + array index: NumPy moves the advanced dims first, dask_array (like dask)
+            # does not -- a C12 (pure indexing semantics) matter, kept out of every simulated property
+            ix = [[i, i + 1 if i != -1 else None, None] if isinstance(i, int) else i for i in ix]
         if rng.random() < 0.12:
             ix.insert(rng.randint(0, len(ix)), "None")
         if rng.random() < 0.15 and len(ix) > 1:
@@ -1101,6 +1115,9 @@ class Ctx:
         self.p_masked = 0.03
         self.p_auto_chunks = 0.15
         self.p_array_param = 0.0
+        self.p_simlock = 0.0
+        self.p_custom_getitem = 0.0
+        self.unary_fns = None
         self.n_generators = 2
         self.sources_reuse = True
         self.allow_step = True
